@@ -1245,13 +1245,18 @@ impl UnifiedCommandExecutor {
             }
             
             KeyCommand::RenameNx { old_key, new_key } => {
-                use crate::storage::commands::strings::handle_rename;
-                let frames = vec![
-                    RespFrame::from_string("RENAMENX"),
-                    RespFrame::from_bytes(old_key),
-                    RespFrame::from_bytes(new_key),
-                ];
-                handle_rename(&self.storage, db, &frames)
+                // Same steps as the server's RENAMENX: the rename only happens when the new
+                // name is free, and the reply is 1 or 0 (it used to run a plain RENAME)
+                if !self.storage.exists(db, &old_key)? {
+                    return Ok(RespFrame::error("ERR no such key"));
+                }
+                if self.storage.exists(db, &new_key)? {
+                    return Ok(RespFrame::Integer(0));
+                }
+                match self.storage.rename(db, &old_key, new_key) {
+                    Ok(_) => Ok(RespFrame::Integer(1)),
+                    Err(e) => Ok(RespFrame::error(e.to_string())),
+                }
             }
             
             KeyCommand::RandomKey => {
